@@ -40,7 +40,7 @@ def _child(pid: str, n: int, reverse: bool, garbage: bool) -> None:
 
 
 def _spawn(pid: str, n: int, hashseed: int, reverse: bool, garbage: bool) -> "subprocess.Popen[str]":
-    env = dict(os.environ, PYTHONHASHSEED=str(hashseed), PYTHONPATH=f"{VERIF}:/repo/src",
+    env = dict(os.environ, PYTHONHASHSEED=str(hashseed), PYTHONPATH=f"{VERIF}:" + os.environ.get("VERIF_REPO_SRC", "/repo/src"),
                PYTHONDONTWRITEBYTECODE="1")
     code = f"from sim.selftest import _child; _child({pid!r}, {n}, {reverse}, {garbage})"
     return subprocess.Popen(["/venv/bin/python", "-c", code], cwd=VERIF, env=env, text=True,
@@ -88,7 +88,7 @@ def sensitivity(pids: list[str], runs: int) -> int:
         code = f"import sys; sys.path.insert(0, {VERIF!r}); from sim import env; env.import_sdk(); " \
                f"from sim.runner import load_prop; print(' '.join(load_prop({pid!r}).MUTANTS))"
         names = subprocess.run(["/venv/bin/python", "-c", code], cwd=VERIF, text=True, capture_output=True,
-                               env=dict(os.environ, PYTHONPATH=f"{VERIF}:/repo/src"), timeout=120).stdout.split()
+                               env=dict(os.environ, PYTHONPATH=f"{VERIF}:" + os.environ.get("VERIF_REPO_SRC", "/repo/src")), timeout=120).stdout.split()
         for m in names:
             t0 = time.time()
             p = subprocess.run([os.path.join(VERIF, "check"), pid, "--runs", str(runs), "--mutant", m,
